@@ -18,7 +18,9 @@ RULE = ("2-3 objects (MafRecord parsed by MafRecord.from_line under the built-in
         "signs, big numbers, barcode order on a plain Locatable); contig lists of 4-6 and of 25-30 names "
         "(ranks 10 and up); for a share of the cases another sort order with a different contig list over the "
         "same names (reversed / rotated / one name dropped, either order class) first builds keys for the same "
-        "objects in the same interpreter (\"warm\"), then the case's own sort order is observed; non-trivial = at least two keys built "
+        "objects in the same interpreter (\"warm\"), then the case's own sort order is observed; for another share the "
+        "case's sort order instance is first handed to MafHeader.from_defaults(sort_order=instance, contigs=other list) "
+        "once or twice (\"lend\": a header may not rewrite the caller's instance); non-trivial = at least two keys built "
         "and at least one ordered pair of distinct objects compared; distinct by hash of the case")
 ASSUMPTIONS = [
     "values reaching a key are None, int or str (no float, bool, bytes, user classes)",
@@ -35,8 +37,8 @@ CONTIG_MODES = ["none", "none", "empty", "lexical", "karyotypic", "karyotypic", 
 
 
 # ------------------------------------------------------------ generation
-def _case(stream, order, contigs, recs, warm=None):
-    return {"stream": stream, "order": order, "contigs": contigs, "recs": recs, "warm": warm}
+def _case(stream, order, contigs, recs, warm=None, lend=None):
+    return {"stream": stream, "order": order, "contigs": contigs, "recs": recs, "warm": warm, "lend": lend}
 
 
 def _other_contigs(rng, contigs):
@@ -107,7 +109,11 @@ def _gen_one(rng):
     warm = None
     if contigs and rng.random() < 0.35:
         warm = [rng.choice(["C", "B"]), _other_contigs(rng, contigs)]
-    return _case(stream, order, contigs, recs, warm)
+    lend = None
+    if rng.random() < 0.25:
+        base = [str(x) for x in contigs] if contigs else list(chroms)
+        lend = [_other_contigs(rng, base) for _ in range(rng.choice([1, 1, 2]))]
+    return _case(stream, order, contigs, recs, warm, lend)
 
 
 def generate(rng, n):
@@ -148,6 +154,13 @@ def corpus():
               warm=["B", ["chr10", "chr2", "chr1"]]),
         _case("corpus", "C", ["chr1", "chr2"], [_u(chrom="chr2", start="1", end="1"), _u(chrom="chr10", start="1", end="1")],
               warm=["C", ["chr10", "chr2", "chr1"]]),
+        # the caller's sort order instance is handed to a header with contigs and used afterwards: it must be unchanged
+        _case("corpus", "C", None, [_u(chrom="chr2", start="1", end="1"), _u(chrom="chr10", start="1", end="1"), _u(chrom="chrZ", start="1", end="1")],
+              lend=[["chr1", "chr2", "chr10"]]),
+        _case("corpus", "B", ["chr1", "chr2", "chr10"], [_u(tumor="T1", chrom="chr2", start="1", end="1"), _u(tumor="T1", chrom="chr10", start="1", end="1")],
+              lend=[["chr10", "chr2", "chr1"], ["chr10"]]),
+        # exactly one start / with equal starts exactly one end missing: missing last, no exception
+        _case("corpus", "C", None, [_u(chrom="1", start="5", end="7"), _u(chrom="1", end="7"), _u(chrom="1", start="5"), _u(chrom="1")]),
         _case("corpus", "C", None, [{"kind": "plain", "c": 0, "s": 0, "e": 0}, {"kind": "plain", "c": "", "s": "0", "e": None},
                                      {"kind": "plain", "c": "0", "s": None, "e": 0}]),
         _case("corpus", "C", None, [{"kind": "plain", "c": 1, "s": "9", "e": None}, {"kind": "plain", "c": "1", "s": 10, "e": 3},
@@ -194,6 +207,12 @@ def run_impl(case):
     cls = Coordinate if case["order"] == "C" else BarcodesAndCoordinate
     contigs = case["contigs"]
     so = cls(contigs=list(contigs)) if contigs is not None else cls()
+    if case.get("lend"):
+        # hand the instance to one or two headers that carry other contig lists
+        from maflib.header import MafHeader
+
+        for other in case["lend"]:
+            MafHeader.from_defaults(sort_order=so, contigs=list(other))
     keyf = so.sort_key()
     objs = [C.build_obj(d) for d in case["recs"]]
     if case.get("warm"):
@@ -307,7 +326,7 @@ def classify(case, obs):
     nc = len(case["contigs"] or [])
     return "%s/%s/contigs=%s%s/%s/keyfail=%s" % (
         case["stream"], case["order"], "no" if nc == 0 else ("short" if nc <= 10 else "long"),
-        "+warm" if case.get("warm") else "", "+".join(kinds), "0" if failed == 0 else "1+")
+        ("+warm" if case.get("warm") else "") + ("+lend" if case.get("lend") else ""), "+".join(kinds), "0" if failed == 0 else "1+")
 
 
 def nontrivial(case, obs):
